@@ -57,10 +57,13 @@ claim("C04",
       "tables dumped from the compiled package on every run; polynomial layer in integer mode (XOR facts imported from lemmas proved on 64-bit vectors); remainder by a symbolic positive divisor given its bounds explicitly; "
       "Encode assumes the buffer does not share memory with the encoder's polynomials (sepEnc) and len <= size-1.")
 claim("C05",
-      "Narrow claim: the pairwise Hamming distance of the 32 format words is >= 7 and of the 34 version words >= 8 (all pairs, over the compiled tables), so up to three flipped bits leave "
-      "the original word the unique nearest entry; FormatInformation_NumBitsDiffering is proved to be the Hamming distance (64-bit vectors). "
-      "Not decided here: the nearest-entry search loops themselves, Reed-Solomon correction (see C04), de-interleaving, and the end-to-end statement over placed modules.",
-      "tables dumped from the compiled package; math/bits.OnesCount given its defining bitwise specification.")
+      "Format and version information: the pairwise Hamming distance of the 32 format words is >= 7 and of the 34 version words >= 8 (all pairs, over the compiled tables); "
+      "FormatInformation_NumBitsDiffering is proved to be the Hamming distance; the nearest-entry searches Version_decodeVersionInformation and doDecodeFormatInformation are proved (loop invariants over the "
+      "running minimum) to return the entry of the unique table word within distance 3 of the read word(s) and to refuse words farther than 3 from every entry, so up to three flipped bits are corrected "
+      "(uniqueness follows from the distance lemmas by the triangle inequality, on paper). Decoder.correctErrors is proved to hand the Reed-Solomon decoder every codeword of the block, in order, widened to 0..255, "
+      "in storage of its own, to copy back exactly the data codewords and to leave the block untouched on failure. "
+      "Not decided here: Reed-Solomon correction itself (see C04: decoder not under contract), de-interleaving (DataBlock_GetDataBlocks), ReadFormatInformation/ReadVersion bit placement, the end-to-end statement over placed modules.",
+      "tables dumped from the compiled package; math/bits.OnesCount given its defining bitwise specification; ReedSolomonDecoder.Decode is a havoc of its effect summary in correctErrors.")
 
 claim("C19",
       "Over the reals: SquareToQuadrilateral is proved to send (0,0),(1,0),(0,1) to the given points and to compute the perspective coefficients as the solution of the 2x2 system "
